@@ -107,6 +107,14 @@ def search(run, info):
             cyc = [gen_sem.Decl("fb", names[j], ["FUNCTION_BLOCK %s" % names[j], "VAR", "  nxt : %s;" % names[(j + 1) % k], "END_VAR", "END_FUNCTION_BLOCK"])
                    for j in range(k)]
             variants.append(("single-fault", "P0010", list(u[:2]) + cyc))
+        if ui % 3 == 0 and u:
+            # one declaration written twice -- the very same text, or the same in another letter case: a duplicated definition
+            # however the two copies are distributed over files (the place it is reported at may follow the order)
+            d0 = rng.choice([x for x in u if x.kind in ("fb", "program", "type", "function")] or [u[0]])
+            twin = d0.copy()
+            if rng.random() < 0.5:
+                twin.lines = [ln.swapcase() if "'" not in ln and '"' not in ln else ln for ln in twin.lines]
+            variants.append(("duplicate", "P0020", list(u) + [twin]))
         for kind, code, unit in variants:
             decls = [d.text() for d in unit]
             n = len(decls)
